@@ -1070,6 +1070,9 @@ class ArgumentParser(ParserDeprecations, ActionsContainer, ArgumentLinking, argp
             if not default_config_file_content.strip():
                 continue
             with change_to_path_dir(default_config_file), parser_context(parent_parser=self):
+                with suppress(*get_loader_exceptions()):
+                    if load_value(default_config_file_content) is None:
+                        continue  # only comments or a null document: nothing to apply, same as an empty file
                 cfg_file = self._load_config_parser_mode(default_config_file.get_content(), key=key)
                 cfg = self.merge_config(cfg_file, cfg)
                 try:
